@@ -6,6 +6,7 @@ what Go wrote."""
 import json, os, random, re
 import vlib
 import client_common as cc
+import client_walk as cw
 
 PID = "C05"
 REQ_TYPES = [1, 2, 3, 20, 21, 22, 23, 24, 25, 26, 40, 41, 42, 43, 44, 45, 60, 64, 1023]
@@ -453,6 +454,119 @@ def after_close_script(rnd, sid):
     return sc
 
 
+def kapayload_script(rnd, sid):
+    """reader-initiated messages of a header-only type that nevertheless carry a payload (a KeepAlive with a vendor Custom
+    parameter is legal input): the client's reaction is a frame of its own — the acknowledgement — and that frame must be
+    exactly its 10 header bytes with length field 10, whatever length the keep-alive announced; the frames around it
+    (requests held by the write loop, later requests) stay whole. Compared with the model and judged by pred_c05 on what
+    the peer parses off the wire (a header announcing bytes that never follow shows as stream-not-frames / length-field)."""
+    version = rnd.choice([1, 2])
+    b = cc.SB(sid, version=version)
+    b.connect(cur=rnd.choice([1, 2]), mx=2)
+    tag = rnd.randrange(1, 1 << 20) * 4096
+    types = list(REQ_TYPES)
+    rnd.shuffle(types)
+    c, kid = 0, rnd.randrange(1, 1 << 30)
+    outstanding = []
+    for n in rnd.sample([1, 2, 4, 9, 10, 11, 100, 255, 4096, 65536], rnd.randrange(2, 5)):
+        kid += 1
+        if rnd.random() < 0.5:
+            # the write loop is blocked with a request in its hand while the keep-alive arrives; another request queues up
+            c += 1
+            b.send(c, types[c], rnd.choice([0, 3, 300]), tag + c, expect=False)
+            a = c
+            b.peer(cc.T_KA, rnd.choice([kid, 0, 4294967295]), n, tag + 100 + c, ver=rnd.choice([1, 2]))
+            bq = None
+            if rnd.random() < 0.6:
+                c += 1
+                b.send(c, types[c], rnd.choice([0, 5]), tag + c, expect=False)
+                bq = c
+            b.req_index[a] = b.nseen
+            b.expect()
+            b.expect()                       # the acknowledgement
+            outstanding.append(a)
+            if bq is not None:
+                b.req_index[bq] = b.nseen
+                b.expect()
+                outstanding.append(bq)
+        else:
+            b.peer(cc.T_KA, rnd.choice([kid, 0, 4294967295]), n, tag + 100 + kid % 50, ver=rnd.choice([1, 2]))
+            b.expect()
+        if rnd.random() < 0.5:
+            kid += 1
+            b.keepalive(kid)                 # an ordinary one right behind it
+            b.expect()
+    rnd.shuffle(outstanding)
+    for a in outstanding:
+        b.reply_to(a, resp_type(b.reqs[a]["typ"]), rnd.choice([0, 6]), tag + 500 + a)
+        b.wait(a)
+    b.op("drain")
+    b.op("state")
+    sc = b.script()
+    sc["family"] = "kapayload"
+    sc["step_ms"] = 700
+    return sc
+
+
+def neg_refused_script(rnd, sid, stage, code, rtyp):
+    """version negotiation in which the reader answers GetSupportedVersion / SetProtocolVersion with an error status (every
+    status class, as ErrorMessage or as the proper response type), then waits longer than any retry pause and reads whatever
+    the client wrote: every frame whole — in particular a message that is submitted again must go out with its payload. Go
+    only (the pause is real time); judged by pred_c05."""
+    b = cc.SB(sid, version=2)
+    b.connect(negotiate=False)
+    b.expect()                                                        # GetSupportedVersion
+    if stage == "gsv":
+        b.reply(0, rtyp, pl=dict(k="status", code=code) if rtyp == cc.T_ERR else dict(k="gsvr", cur=1, max=2, status=code), ver=2)
+    else:
+        b.reply(0, cc.T_GSVR, pl=dict(k="gsvr", cur=1, max=2, status=0), ver=2)
+        b.expect()                                                    # SetProtocolVersion
+        b.reply(b.nseen - 1, rtyp, pl=dict(k="status", code=code), ver=2)
+    b.op("sleep", ms=350)
+    b.op("drain")
+    b.op("sleep", ms=350)
+    b.op("drain")
+    b.op("wait_connect")
+    sc = b.script()
+    sc["family"] = "neg-refused"
+    sc["step_ms"] = 700
+    return sc
+
+
+def neg_refused_scripts(rnd, thorough):
+    out = []
+    codes = [100, 101, 109, 110, 201, 401, 402, 65535] if thorough else [101, 110, 401]
+    for stage in ("gsv", "spv"):
+        for code in codes:
+            for rtyp in (cc.T_ERR, cc.T_GSVR if stage == "gsv" else cc.T_SPVR):
+                out.append(neg_refused_script(rnd, "c05-negrefused-%s-%d-%d" % (stage, code, rtyp), stage, code, rtyp))
+    return out
+
+
+def ack_deadline_script(rnd, sid):
+    """WithTimeout client; the peer takes 1..9 bytes of a KeepAliveAck (or of a request header) and pauses for more than a second
+    — longer than any shortened per-message deadline, shorter than the client's timeout — then reads on; another keep-alive and
+    a request follow. The raw stream must still be whole frames. Go only, real time (~1.3 s)."""
+    b = cc.SB(sid, version=1)
+    b.connect_step["client_timeout_ms"] = 4000
+    b.connect()
+    tag = rnd.randrange(1, 1 << 20) * 64
+    if rnd.random() < 0.5:
+        b.send(1, rnd.choice(REQ_TYPES), 5, tag + 1, expect=False)
+        b.op("drain_raw")
+    b.keepalive(rnd.choice([7, 0, 4294967295]))
+    b.op("peer_read", n=rnd.randrange(1, 10))
+    b.op("sleep", ms=1150)
+    b.keepalive(8)
+    b.send(2, rnd.choice(REQ_TYPES), 12, tag + 2, expect=False)
+    b.op("drain_raw")
+    b.op("state")
+    sc = b.script()
+    sc["family"] = "ack-deadline"
+    sc["step_ms"] = 2500
+    return sc
+
+
 def close_payload_script():
     """SendMessage(MsgCloseConnection, 5 bytes): predicate only (see notes/C05.md)"""
     b = cc.SB("c05-close-payload", version=1)
@@ -474,7 +588,8 @@ def run(tier, seed, replay=None):
         "payload identity is (length, sha256 prefix); the peer parses headers with its own code",
     ]
     vlib.proof_part(res, PID)
-    static = single_writer_static(res)
+    walks_only = os.environ.get("VERIF_WALKS_ONLY") == "1"     # debug switch: the hand-written families are skipped
+    static = single_writer_static(res) if not walks_only else {}
     exe, err = cc.build(PID)
     if err:
         res.violation("build", err, dict(kind="build"), False)
@@ -482,16 +597,22 @@ def run(tier, seed, replay=None):
     thorough = tier == "thorough"
     pred_only = []
     rp_data = {}
+    walk_scripts = []
     if replay:
         rp_data = json.load(open(replay))
         scripts = [rp_data["script"]] if "script" in rp_data else []
         if scripts and scripts[0].get("family") in ("close-payload", "gated", "wtimeout", "wdeadline", "cancel-held",
-                                                    "cancel-midframe", "types"):
+                                                    "cancel-midframe", "types", "neg-refused", "ack-deadline"):
             pred_only, scripts = scripts, []
+        elif scripts and scripts[0].get("family") == "walk":
+            walk_scripts, scripts = scripts, []
+    elif walks_only:
+        scripts = []
     else:
         scripts = gen_scripts(seed, 2500 if thorough else 400, thorough)
         ra = random.Random(seed + 17)
         scripts += [after_close_script(ra, "c05-afterclose-%d" % i) for i in range(240 if thorough else 40)]
+        scripts += [kapayload_script(ra, "c05-kapayload-%d" % i) for i in range(120 if thorough else 20)]
         rg = random.Random(seed + 11)
         pred_only = ([close_payload_script()] + [gated_script(rg, "c05-gated-%d" % i) for i in range(120 if thorough else 24)]
                      + [wtimeout_script(rg, "c05-wtimeout-%d" % i) for i in range(120 if thorough else 24)]
@@ -499,7 +620,9 @@ def run(tier, seed, replay=None):
                      + [cancel_held_script(rg, "c05-cancelheld-%d" % i) for i in range(120 if thorough else 24)]
                      + [cancel_midframe_script(rg, "c05-midframe-%d" % i) for i in range(150 if thorough else 30)]
                      + [cancel_midframe_script(rg, "c05-midframe-big-%d" % i, n=300000) for i in range(4 if thorough else 1)]
-                     + types_scripts(rg, thorough))
+                     + types_scripts(rg, thorough)
+                     + neg_refused_scripts(rg, thorough)
+                     + [ack_deadline_script(rg, "c05-ackdeadline-%d" % i) for i in range(4 if thorough else 2)])
     scripts = cc.staged(exe, scripts, lambda s_, g_: bool(cc.pred_c05(cc.go_view(s_, g_))))
     go, logs = cc.run_go(exe, scripts, shards=8)
     flag, diffs, counts = cc.pick_variant(scripts, go) if scripts else ((False, False), [], {})
@@ -554,7 +677,7 @@ def run(tier, seed, replay=None):
                 cc.crash_violation(res, PID, s, g)
             continue
         view = cc.go_view(s, g)
-        if s["family"] in ("wtimeout", "wdeadline", "cancel-midframe"):
+        if s["family"] in ("wtimeout", "wdeadline", "cancel-midframe", "ack-deadline"):
             # judged on the raw bytes; a trailing unfinished frame is what a failed Write leaves behind
             found = list(cc.judge_raw(s, g, view))
             nontriv.add((s["id"], (g.get("final") or {}).get("raw_len", 0)))
@@ -599,6 +722,19 @@ def run(tier, seed, replay=None):
             if sig not in reported:
                 reported.add(sig)
                 res.violation(sig, "%s [script %s]" % (text, s["id"]), dict(kind="script", script=s, theorem="C05_outbound_is_frame_concat"))
+    # model-based random walks (checks/client_walk.py)
+    walk_ev = None
+    if not replay:
+        walk_scripts, wstats, wcalls = cw.walks(seed + 101, 6000 if thorough else 400, cw.WEIGHTS[PID], prefix="c05-walk")
+        walk_ev = cw.evidence(wstats, walk_scripts, wcalls)
+    if walk_scripts:
+        winfo = cw.run_walks(res, PID, exe, walk_scripts, ["c05"], reported=reported)
+        evals += winfo.get("evals", 0)
+        dist["walk"] = len(walk_scripts)
+        for s_ in walk_scripts:
+            nontriv.add((s_["id"], len(s_["steps"])))
+        if walk_ev is not None:
+            walk_ev.update(disagreeing=winfo.get("disagreeing"), failing_predicate=winfo.get("failing"), model_variant=str(winfo.get("variant")))
     # stress
     stress = []
     if replay and "stress" in rp_data:
@@ -610,7 +746,7 @@ def run(tier, seed, replay=None):
                 if sig not in reported:
                     reported.add(sig)
                     res.violation(sig, "%s [stress %s]" % (text, rq.get("id")), dict(kind="stress", stress=rq))
-    if not replay:
+    if not replay and not walks_only:
         rnd = random.Random(seed + 5)
         for i in range(10 if thorough else 4):
             stress.append(dict(id="st%d" % i, seed=rnd.randrange(1 << 30), callers=rnd.choice([8, 32, 64] if thorough else [8, 24]),
@@ -636,5 +772,5 @@ def run(tier, seed, replay=None):
              "distinct by (script id, #frames, #callers)",
         samples=samples, input_distribution=dist, traces_validated_against_impl=evals,
         model_variant=dict(filter_unsolicited=flag[0], stamp_always=flag[1], disagreeing=counts),
-        trusted_base=res.assumptions)
+        walks=walk_ev, trusted_base=res.assumptions)
     return res.finish()
